@@ -411,7 +411,10 @@ func (b *BinaryExpr) SQL() string {
 
 func (u *UnaryExpr) SQL() string {
 	p := exprPrec(u)
-	return string(u.Op) + strOpt(u.Op == OpNot, " ") + paren(p, u.Expr)
+	operand := paren(p, u.Expr)
+	// "- -x" and "+ +x" must not be printed as "--x" (a comment) or "++x".
+	sep := u.Op == OpNot || strings.HasPrefix(operand, string(u.Op))
+	return string(u.Op) + strOpt(sep, " ") + operand
 }
 
 func (i *InExpr) SQL() string {
